@@ -814,3 +814,10 @@ add("V1", "break", CORE, "value_counts", "vc = vc / vc.sum()", "vc = vc / len(x)
 add("V1", "break", CORE, "value_counts", "vc = vc / vc.sum()", "vc = vc / (len(x) if mask is None else vc.sum())", name="V1 row count without a mask")
 add("V1", "keep", CORE, "value_counts", "vc = vc / vc.sum()", "total = vc.sum()\n        vc = vc / total", name="V1 total through a local")
 add("V1", "keep", CORE, "value_counts", "vc = vc / vc.sum()", "vc /= vc.sum()", name="V1 in-place division")
+_M1_CALL = "        combined = reduce_array_pair(combined, chunk, getattr(ScalarFuncs, reduce_func_name), counts=combined_count if counts_tracked else None, y_counts=count if counts_tracked else None)\n"
+add("M1", "break", NB, "combine_chunk_results_for_factorized_key", _M1_CALL, "        if reduce_func_name in ('nanmin', 'nanmax'):\n            combined = (np.fmin if reduce_func_name == 'nanmin' else np.fmax)(combined, chunk)\n        else:\n    " + _M1_CALL, name="M1 extremes merged by a ufunc around the count-aware merge")
+add("M1", "keep", NB, "combine_chunk_results_for_factorized_key", _M1_CALL, "        merged = reduce_array_pair(combined, chunk, getattr(ScalarFuncs, reduce_func_name), counts=combined_count if counts_tracked else None, y_counts=count if counts_tracked else None)\n        combined = merged\n", name="M1 merge result through a local")
+_E9_OLD = "    if times.dtype.kind in 'mM':\n        times = times.astype(f'{times.dtype.kind}8[ns]')\n"
+add("E9", "break", EMAS, "_times_to_int_array", _E9_OLD, "", name="E9 clock in the array's own unit (the defect repaired in round 4)")
+add("E9", "break", EMAS, "_times_to_int_array", _E9_OLD, "    if times.dtype.kind in 'mM':\n        times = times.astype(f'{times.dtype.kind}8[us]')\n", name="E9 clock in microseconds")
+add("E9", "keep", EMAS, "_times_to_int_array", _E9_OLD, "    if times.dtype.kind == 'M':\n        times = times.astype('datetime64[ns]')\n    elif times.dtype.kind == 'm':\n        times = times.astype('timedelta64[ns]')\n", name="E9 explicit dtypes")
